@@ -29,6 +29,16 @@ pub fn apply14(store: &mut AnnotationStore, op: &Sx) -> i64 {
             Some(Err(_)) => 0,
             Some(Ok(_)) => 1,
         }
+    } else if op.nth(0).int() == 13 {
+        let mut b = AnnotationDataSetBuilder::new().with_id(crate::storegen::sid(op.nth(1).int()));
+        for d in op.nth(2).list() {
+            b = b.with_data(dbuild(d));
+        }
+        match guard(|| store.add_dataset(b)) {
+            None => -1,
+            Some(Err(_)) => 0,
+            Some(Ok(_)) => 1,
+        }
     } else {
         apply(store, op).nth(0).int()
     }
@@ -80,11 +90,17 @@ pub fn generate(out: &mut Out, tier: &str, seed: u64) {
                     }
                 }
                 l(v)
+            } else if rng.chance(1, 8) {
+                // add_dataset with 1..3 data items, one reference in four invalid
+                let items: Vec<Sx> = (0..1 + rng.below(3)).map(|_| shadow.gen_dbuild(&mut rng, &cfg)).collect();
+                l(vec![a(13), a(rng.below(5) as i64), l(items)])
             } else {
                 shadow.gen_op(&mut rng, &cfg)
             };
             let r = apply14(&mut store, &op);
             out.count(match (op.nth(0).int(), r) {
+                (13, 1) => "add_dataset_with_data_ok",
+                (13, _) => "add_dataset_with_data_failed",
                 (12, 1) => "batch_ok",
                 (12, _) => "batch_failed",
                 (3, 1) => "annotate_ok",
@@ -107,5 +123,5 @@ pub fn generate(out: &mut Out, tier: &str, seed: u64) {
     }
 }
 
-pub const RULE: &str = "seeded random histories of 1..12 (every 4th: 1..30) operations where one reference in four is invalid (unknown resource / annotation / dataset / key / data by id or handle, inverted and out-of-range offsets in both alignments, relative offsets beyond the parent, duplicate ids with different content, nested complex selectors, missing target, valid target with invalid data and vice versa) and one operation in six is a batch (annotate_from_iter of 1..4 builders, the failing one at any position); after EVERY operation that returns an error (or panics) the complete observation vector of C01 (all items, all reverse lookups, text selections, vocabulary, id resolution) is compared with the one before the call. One evaluation = one outcome or item record.";
+pub const RULE: &str = "seeded random histories of 1..12 (every 4th: 1..30) operations where one reference in four is invalid (unknown resource / annotation / dataset / key / data by id or handle, inverted and out-of-range offsets in both alignments, relative offsets beyond the parent, duplicate ids with different content, nested complex selectors, missing target, valid target with invalid data and vice versa) one operation in six is a batch (annotate_from_iter of 1..4 builders, the failing one at any position) and one in eight an add_dataset with 1..3 data items; after EVERY operation that returns an error (or panics) the complete observation vector of C01 (all items, all reverse lookups, text selections, vocabulary, id resolution) is compared with the one before the call. One evaluation = one outcome or item record.";
 pub const EXHAUSTIVE: bool = false;
